@@ -274,6 +274,11 @@ func (x *fx) loadAt(m *memNode, t types.Type, ref, off string) string {
 		return "(" + x.ctorName(s) + " " + strings.Join(fs, " ") + ")"
 	}
 	if _, ok := t.Underlying().(*types.Array); ok {
+		if x.c.Abstract {
+			// abstracted mode: the array value is unconstrained
+			x.abstracted["load of a whole array value (unconstrained)"] = true
+			return x.fresh("arrayval", x.sortOf(t))
+		}
 		panic(unsupported("load of a whole array value from memory"))
 	}
 	return x.memRead(m, x.memName(t), ref, off)
@@ -288,6 +293,17 @@ func (x *fx) storeAt(m *memNode, t types.Type, ref, off, val string) *memNode {
 		return m
 	}
 	if _, ok := t.Underlying().(*types.Array); ok {
+		if x.c.Abstract {
+			// abstracted mode: the whole element memory is havocked (sound over-approximation)
+			x.abstracted["store of a whole array value (element memory havocked)"] = true
+			name := x.memName(t)
+			x.nver++
+			h := x.newMem("havoc", m)
+			h.tag = fmt.Sprintf("arr%d", x.nver)
+			h.set = map[string]bool{name: true}
+			x.noteWrite(name)
+			return h
+		}
 		panic(unsupported("store of a whole array value to memory"))
 	}
 	return x.memWrite(m, x.memName(t), ref, off, val)
